@@ -345,4 +345,18 @@ VARIANTS = [
     {'name': 'P R2 near-endpoint test split into two guard clauses', 'file': 'hippolyzer/lib/proxy/socks_proxy.py', 'expect': 'silent', 'old': '                if remote_addr == source_addr or remote_addr in self.far_to_near_map.values():\n', 'new': '                if remote_addr == source_addr:\n                    return\n                if remote_addr in self.far_to_near_map.values():\n'},
     {'name': 'R4 empty PacketAck swallowed again (audit C06#3 reverted)', 'file': 'hippolyzer/lib/proxy/circuit.py', 'expect': 'C06.R4', 'old': '        if had_blocks and not new_blocks:\n', 'new': '        if not new_blocks:\n'},
     {'name': 'P R4 original block count taken with len()', 'file': 'hippolyzer/lib/proxy/circuit.py', 'expect': 'silent', 'old': '        had_blocks = bool(message["Packets"])\n', 'new': '        had_blocks = len(message["Packets"]) != 0\n'},
+    # ------------------------------------------------------------------ audit round 2 (anchored on the fixed text: inapplicable until the fixes are committed)
+    {'name': 'R3 main region moved before the body is decoded (audit2 C06#3 reverted)', 'file': 'hippolyzer/lib/proxy/lludp_proxy.py', 'expect': 'C06.R3', 'old': '            region_handle = message["Data"]["RegionHandle"]\n            self.session.main_region = region\n            if region.handle is None:\n                region.handle = region_handle\n', 'new': '            self.session.main_region = region\n            if region.handle is None:\n                region.handle = message["Data"]["RegionHandle"]\n'},
+    {'name': 'R3 body decoded only when the handle is unknown, main region moved regardless', 'file': 'hippolyzer/lib/proxy/lludp_proxy.py', 'expect': 'C06.R3', 'old': '            region_handle = message["Data"]["RegionHandle"]\n            self.session.main_region = region\n            if region.handle is None:\n                region.handle = region_handle\n', 'new': '            if region.handle is None:\n                region.handle = message["Data"]["RegionHandle"]\n            self.session.main_region = region\n'},
+    {'name': 'P R3 block fetched first, handle read from it later', 'file': 'hippolyzer/lib/proxy/lludp_proxy.py', 'expect': 'silent', 'old': '            region_handle = message["Data"]["RegionHandle"]\n            self.session.main_region = region\n            if region.handle is None:\n                region.handle = region_handle\n', 'new': '            data_block = message["Data"]\n            self.session.main_region = region\n            if region.handle is None:\n                region.handle = data_block["RegionHandle"]\n'},
+    {'name': 'P R3 main region moved by a stage helper that decodes first', 'expect': 'silent', 'edits': [{'file': 'hippolyzer/lib/proxy/lludp_proxy.py', 'old': '            region_handle = message["Data"]["RegionHandle"]\n            self.session.main_region = region\n            if region.handle is None:\n                region.handle = region_handle\n', 'new': '            self._agent_moved(region, message)\n'}, {'file': 'hippolyzer/lib/proxy/lludp_proxy.py', 'old': '    def handle_proxied_packet(self, packet: UDPPacket):\n', 'new': '    def _agent_moved(self, region, msg):\n        handle = msg["Data"]["RegionHandle"]\n        self.session.main_region = region\n        if region.handle is None:\n            region.handle = handle\n\n    def handle_proxied_packet(self, packet: UDPPacket):\n'}]},
+    {'name': 'R4 command channel taken from either direction (audit2 C06#2 reverted)', 'file': 'hippolyzer/lib/proxy/addons.py', 'expect': 'C06.R4', 'old': '        if message.name == "ChatFromViewer" and message.direction == Direction.OUT and "ChatData" in message:\n', 'new': '        if message.name == "ChatFromViewer" and "ChatData" in message:\n'},
+    {'name': "R4 command channel taken from the simulator's side", 'file': 'hippolyzer/lib/proxy/addons.py', 'expect': 'C06.R4', 'old': '        if message.name == "ChatFromViewer" and message.direction == Direction.OUT and "ChatData" in message:\n', 'new': '        if message.name == "ChatFromViewer" and message.direction == Direction.IN and "ChatData" in message:\n'},
+    {'name': 'P R4 command direction test as `is not IN`', 'file': 'hippolyzer/lib/proxy/addons.py', 'expect': 'silent', 'old': '        if message.name == "ChatFromViewer" and message.direction == Direction.OUT and "ChatData" in message:\n', 'new': '        if message.name == "ChatFromViewer" and message.direction is not Direction.IN and "ChatData" in message:\n'},
+    {'name': 'P R4 command direction tested next to the channel', 'expect': 'silent', 'edits': [{'file': 'hippolyzer/lib/proxy/addons.py', 'old': '        if message.name == "ChatFromViewer" and message.direction == Direction.OUT and "ChatData" in message:\n', 'new': '        if message.name == "ChatFromViewer" and "ChatData" in message:\n'}, {'file': 'hippolyzer/lib/proxy/addons.py', 'old': '            if message["ChatData"]["Channel"] == cls.COMMAND_CHANNEL:\n', 'new': '            from_viewer = message.direction == Direction.OUT\n            if from_viewer and message["ChatData"]["Channel"] == cls.COMMAND_CHANNEL:\n'}]},
+    # ------------------------------------------------------------------ refactor round 8
+    {'name': 'P R1/R2 one send_packet in the plain transport driven by serialize() and class constants (refac8 G2/5)', 'expect': 'silent', 'edits': [{'file': 'hippolyzer/lib/base/network/transport.py', 'old': '    def send_packet(self, packet: UDPPacket) -> None:\n        if not packet.outgoing:\n            raise ValueError(f"{self.__class__.__name__} can only send outbound packets")\n        self.transport.sendto(packet.data, packet.dst_addr)\n', 'new': '    OUTBOUND_ONLY = True\n\n    @classmethod\n    def serialize(cls, packet: UDPPacket) -> bytes:\n        return packet.data\n\n    def send_packet(self, packet: UDPPacket) -> None:\n        if self.OUTBOUND_ONLY and not packet.outgoing:\n            raise ValueError(f"{self.__class__.__name__} can only send outbound packets")\n        self.transport.sendto(self.serialize(packet), packet.dst_addr)\n'}, {'file': 'hippolyzer/lib/proxy/transport.py', 'old': '        header = cls.HEADER_STRUCT.pack(\n            0, 0, 1, socket.inet_aton(packet.far_addr[0]), packet.far_addr[1])\n        return header + packet.data\n\n    def send_packet(self, packet: UDPPacket) -> None:\n        self.transport.sendto(self.serialize(packet), packet.dst_addr)\n', 'new': '        return cls.make_header(packet.far_addr) + packet.data\n\n    HEADER_RSV = 0\n    HEADER_FRAG = 0\n    HEADER_ATYP_IPV4 = 1\n    OUTBOUND_ONLY = False\n\n    @classmethod\n    def make_header(cls, far_addr) -> bytes:\n        return cls.HEADER_STRUCT.pack(\n            cls.HEADER_RSV, cls.HEADER_FRAG, cls.HEADER_ATYP_IPV4, socket.inet_aton(far_addr[0]), far_addr[1])\n'}]},
+    {'name': 'R2 SOCKS transport inherits the outbound-only refusal', 'expect': 'C06.R2', 'edits': [{'file': 'hippolyzer/lib/base/network/transport.py', 'old': '    def send_packet(self, packet: UDPPacket) -> None:\n        if not packet.outgoing:\n            raise ValueError(f"{self.__class__.__name__} can only send outbound packets")\n        self.transport.sendto(packet.data, packet.dst_addr)\n', 'new': '    OUTBOUND_ONLY = True\n\n    @classmethod\n    def serialize(cls, packet: UDPPacket) -> bytes:\n        return packet.data\n\n    def send_packet(self, packet: UDPPacket) -> None:\n        if self.OUTBOUND_ONLY and not packet.outgoing:\n            raise ValueError(f"{self.__class__.__name__} can only send outbound packets")\n        self.transport.sendto(self.serialize(packet), packet.dst_addr)\n'}, {'file': 'hippolyzer/lib/proxy/transport.py', 'old': '        header = cls.HEADER_STRUCT.pack(\n            0, 0, 1, socket.inet_aton(packet.far_addr[0]), packet.far_addr[1])\n        return header + packet.data\n\n    def send_packet(self, packet: UDPPacket) -> None:\n        self.transport.sendto(self.serialize(packet), packet.dst_addr)\n', 'new': '        return cls.make_header(packet.far_addr) + packet.data\n\n    HEADER_RSV = 0\n    HEADER_FRAG = 0\n    HEADER_ATYP_IPV4 = 1\n    OUTBOUND_ONLY = True\n\n    @classmethod\n    def make_header(cls, far_addr) -> bytes:\n        return cls.HEADER_STRUCT.pack(\n            cls.HEADER_RSV, cls.HEADER_FRAG, cls.HEADER_ATYP_IPV4, socket.inet_aton(far_addr[0]), far_addr[1])\n'}]},
+    {'name': 'R1 header address type constant of the class is 4', 'expect': 'C06.R1', 'edits': [{'file': 'hippolyzer/lib/base/network/transport.py', 'old': '    def send_packet(self, packet: UDPPacket) -> None:\n        if not packet.outgoing:\n            raise ValueError(f"{self.__class__.__name__} can only send outbound packets")\n        self.transport.sendto(packet.data, packet.dst_addr)\n', 'new': '    OUTBOUND_ONLY = True\n\n    @classmethod\n    def serialize(cls, packet: UDPPacket) -> bytes:\n        return packet.data\n\n    def send_packet(self, packet: UDPPacket) -> None:\n        if self.OUTBOUND_ONLY and not packet.outgoing:\n            raise ValueError(f"{self.__class__.__name__} can only send outbound packets")\n        self.transport.sendto(self.serialize(packet), packet.dst_addr)\n'}, {'file': 'hippolyzer/lib/proxy/transport.py', 'old': '        header = cls.HEADER_STRUCT.pack(\n            0, 0, 1, socket.inet_aton(packet.far_addr[0]), packet.far_addr[1])\n        return header + packet.data\n\n    def send_packet(self, packet: UDPPacket) -> None:\n        self.transport.sendto(self.serialize(packet), packet.dst_addr)\n', 'new': '        return cls.make_header(packet.far_addr) + packet.data\n\n    HEADER_RSV = 0\n    HEADER_FRAG = 0\n    HEADER_ATYP_IPV4 = 4\n    OUTBOUND_ONLY = False\n\n    @classmethod\n    def make_header(cls, far_addr) -> bytes:\n        return cls.HEADER_STRUCT.pack(\n            cls.HEADER_RSV, cls.HEADER_FRAG, cls.HEADER_ATYP_IPV4, socket.inet_aton(far_addr[0]), far_addr[1])\n'}]},
+    {'name': 'R2 shared send_packet sends the bare data, SOCKS framing bypassed', 'expect': 'C06.R2', 'edits': [{'file': 'hippolyzer/lib/base/network/transport.py', 'old': '    def send_packet(self, packet: UDPPacket) -> None:\n        if not packet.outgoing:\n            raise ValueError(f"{self.__class__.__name__} can only send outbound packets")\n        self.transport.sendto(packet.data, packet.dst_addr)\n', 'new': '    OUTBOUND_ONLY = True\n\n    @classmethod\n    def serialize(cls, packet: UDPPacket) -> bytes:\n        return packet.data\n\n    def send_packet(self, packet: UDPPacket) -> None:\n        if self.OUTBOUND_ONLY and not packet.outgoing:\n            raise ValueError(f"{self.__class__.__name__} can only send outbound packets")\n        self.transport.sendto(packet.data, packet.dst_addr)\n'}, {'file': 'hippolyzer/lib/proxy/transport.py', 'old': '        header = cls.HEADER_STRUCT.pack(\n            0, 0, 1, socket.inet_aton(packet.far_addr[0]), packet.far_addr[1])\n        return header + packet.data\n\n    def send_packet(self, packet: UDPPacket) -> None:\n        self.transport.sendto(self.serialize(packet), packet.dst_addr)\n', 'new': '        return cls.make_header(packet.far_addr) + packet.data\n\n    HEADER_RSV = 0\n    HEADER_FRAG = 0\n    HEADER_ATYP_IPV4 = 1\n    OUTBOUND_ONLY = False\n\n    @classmethod\n    def make_header(cls, far_addr) -> bytes:\n        return cls.HEADER_STRUCT.pack(\n            cls.HEADER_RSV, cls.HEADER_FRAG, cls.HEADER_ATYP_IPV4, socket.inet_aton(far_addr[0]), far_addr[1])\n'}]},
 ]
